@@ -47,7 +47,7 @@ with `batch.PreviousOutputs`. -/
 theorem C05_signer_source_shape :
     htP2wsh = 1 ∧ htTaproot = 0 ∧
     signerAccountLookup = "acctDiff.AccountKey" ∧
-    signerInputMatch = "in.PreviousOutPoint == acct.OutPoint" ∧ signerInputLoop = "no-break" ∧
+    signerInputMatch = "acct.OutPoint == in.PreviousOutPoint" ∧ signerInputLoop = "no-break" ∧
     signerVersionGate = "acct.Version >= account.VersionTaprootEnabled" ∧
     signerRawTx = "batch.BatchTX" ∧ signerMuSig2Tx = "batch.BatchTX" ∧
     signerMuSig2PrevOuts = "batch.PreviousOutputs" := by decide
